@@ -10,6 +10,7 @@ pub mod c12;
 pub mod sweep;
 pub mod c16;
 pub mod c19;
+pub mod c20;
 
 pub struct PropDef {
     pub id: &'static str,
@@ -37,6 +38,7 @@ pub fn all() -> Vec<PropDef> {
         budget: (40.0, 3000.0),
         post: None,
     },
+    PropDef { id: "C20", spaces: c20::spaces, assumptions: c20::ASSUMPTIONS, budget: (60.0, 3000.0), post: None },
     PropDef { id: "C19", spaces: c19::spaces, assumptions: c19::ASSUMPTIONS, budget: (60.0, 3000.0), post: None },
     PropDef {
         id: "C16",
